@@ -247,3 +247,163 @@ func VH_C16_loop(remove int) {
 	vreach("end")
 }
 
+
+// ---- recurring jobs -----------------------------------------------------------------
+//
+// cronexpr.Parse / Expression.Next are engine intrinsics running the real library
+// natively; for a symbolic instant Next is exact for the every-second schedule.
+
+const vhEverySecond = "* * * * * * *"
+
+// VH_C16_recurring: an every-second job on a cron with capacity 2. mode 0: nothing else;
+// mode 1: the job's first run fills the cron up to its capacity with two far-away
+// one-shots (re-scheduling a job that ran is not an addition and must not be refused);
+// mode 2: the job removes itself while it runs (a removed job never fires again);
+// mode 3: the job replaces itself (same id) with a far-away one-shot while it runs (the
+// replacement must survive, the old schedule must not come back).
+func VH_C16_recurring(mode int) {
+	vrealclock()
+	c := vhNewCron(2)
+	ctx := core.NewContext("c16")
+	c.Start(ctx)
+	vquiesce()
+	nop := func(t time.Time) error { return nil }
+	var fired []int64
+	n := 0
+	rf := int64(0) // runs of the replacement (the engine's clock may jump an hour ahead; the real one does not)
+	fn := func(t time.Time) error {
+		n++
+		fired = append(fired, vgetNow())
+		if n == 1 {
+			switch mode {
+			case 1:
+				vassert(c.Add(ctx, "F1", "+3600s", nop) == nil, "add-succeeds")
+				vassert(c.Add(ctx, "F2", "+3600s", nop) == nil, "add-succeeds")
+			case 2:
+				c.Rem(ctx, "R")
+			case 3:
+				vassert(c.Add(ctx, "R", "+3600s", func(t time.Time) error { rf++; return nil }) == nil, "add-succeeds")
+			}
+		}
+		if n == 2 {
+			c.Kill(ctx)
+		}
+		return nil
+	}
+	// the clock reading at Add is arbitrary within a second
+	vsetNow(vhBase + int64(vsymInt("phase", 0, 999999999)))
+	vassert(c.Add(ctx, "R", vhEverySecond, fn) == nil, "add-succeeds")
+	due := int64(0)
+	c.Lock()
+	for _, j := range c.Timeline {
+		if j.Id == "R" {
+			due = j.Next.UnixNano()
+			vassert(!j.Once(), "recurring")
+		}
+	}
+	c.Unlock()
+	vquiesce()
+	vquiesce()
+	vassert(len(fired) >= 1, "recurring-job-fires-once-per-occurrence")
+	const margin = int64(10 * 1000000)
+	vassert(fired[0]+margin >= due, "fires-no-earlier-than-due")
+	vassert(fired[0] >= due, "fires-no-earlier-than-due")
+	const sec = int64(1000000000)
+	switch mode {
+	case 0, 1:
+		vassert(n == 2, "recurring-job-fires-once-per-occurrence")
+		// two firings belong to two different occurrences (seconds)
+		vassert(fired[1]/sec > fired[0]/sec, "recurring-job-fires-once-per-occurrence")
+		// and the job is pending again, once
+		vassert(vhCount(c, "R") == 1, "recurring-job-pending-once-after-a-run")
+	case 2:
+		vassert(n == 1, "removed-job-never-fires")
+		vassert(vhCount(c, "R") == 0, "removed-job-never-fires")
+		c.Kill(ctx)
+	case 3:
+		vassert(n == 1, "replaced-job-never-fires")
+		vassert(vhCount(c, "R")+rf == 1, "at-most-one-entry-per-id")
+		for _, j := range c.Timeline {
+			if j.Id == "R" {
+				vassert(j.Once(), "replacement-survives-the-old-jobs-run")
+			}
+		}
+		c.Kill(ctx)
+	}
+	vquiesce()
+	vreach("end")
+}
+
+// VH_C16_suspend: a one-shot job is pending; then k suspend/resume/pause commands (local
+// and through the broadcaster, every sequence), time passes, then everything is resumed.
+// Suspending and pausing only delay: the job fires exactly once, not before it is due.
+func VH_C16_suspend(k int) {
+	vrealclock()
+	vsetNow(vhBase)
+	b := NewCronBroadcaster()
+	pause := time.Duration(vsymInt("pause", 1, 200)) * time.Millisecond
+	c, err := NewCron(b, pause, "verif", 10)
+	vassume(err == nil)
+	ctx := core.NewContext("c16")
+	c.Start(ctx)
+	vquiesce()
+	n := 0
+	at := int64(0)
+	d := int64(vsymInt("d", 1, 300)) * 1000000
+	vassert(c.Add(ctx, "A", "+"+strconv.FormatInt(d, 10)+"ns", func(t time.Time) error {
+		n++
+		at = vgetNow()
+		return nil
+	}) == nil, "add-succeeds")
+	due := int64(0)
+	c.Lock()
+	for _, j := range c.Timeline {
+		due = j.Next.UnixNano()
+	}
+	c.Unlock()
+	bsusp := false
+	for i := 0; i < k; i++ {
+		switch vchoose(5) {
+		case 0:
+			c.Suspend(ctx)
+		case 1:
+			c.Resume(ctx)
+		case 2:
+			if !bsusp {
+				b.Suspend()
+				bsusp = true
+			}
+		case 3:
+			if bsusp {
+				b.Resume()
+				bsusp = false
+			}
+		case 4:
+			c.Pause(ctx)
+		}
+		vhSettle()
+	}
+	// nobody suspends any more
+	if bsusp {
+		b.Resume()
+		vhSettle()
+	}
+	c.Resume(ctx)
+	vquiesce()
+	vassert(n == 1, "suspension-only-delays-firing")
+	vassert(at >= due, "fires-no-earlier-than-due")
+	vassert(c.PendingCount() == 0, "no-entry-left-after-firing")
+	c.Kill(ctx)
+	vquiesce()
+	vreach("end")
+}
+
+// vhSettle lets the loop consume the command just sent (natively: a short real sleep;
+// in the engine: run the other goroutines until they block, timers included).
+func vhSettle() {
+	if vsymbolic() {
+		vquiesce()
+		return
+	}
+	time.Sleep(60 * time.Millisecond)
+}
